@@ -35,6 +35,15 @@ m3 = _stmt("m3_thread_local", "THREAD_LOCAL_TEST_SINK.with(|cell| cell.borrow().
 m4 = _stmt("m4_runtime_sinks", "runtime_sinks().lock().unwrap()", "verif_runtime_sinks()", "M4: the locked per-runtime test-sink map")
 m5 = _stmt("m5_sink_read", "SINK.read().unwrap()", "verif_sink_read()", "M5: read access to the attached sink")
 
+m6 = _stmt("m6_documented_panic", 'panic!("A test sink was already installed for this runtime.', 'verif_documented_panic("A test sink was already installed for this runtime.',
+           "M6: the documented panic of a second install: control does not continue (Verus would demand that a panic! be unreachable)")
+m7 = _stmt("m7_crate_global_path", "$crate::global::TokioRuntimeTestSinkGuard", "TokioRuntimeTestSinkGuard", "M7: $crate path of the guard type")
+
+m8 = _stmt("m8_sink_write", "SINK.write().unwrap()", "verif_sink_write()", "M8: write access to the attached sink")
+m9 = _stmt("m9_attach_panic", 'panic!("Already installed a global {NAME} sink,', 'verif_documented_panic("Already installed a global {NAME} sink,', "M9: the documented panic of a second attach")
+m10 = _stmt("m10_store", "*write = Some((BoxEntrySink::new(sink), Box::new(handle)));", "write.verif_store(BoxEntrySink::new(sink), Box::new(handle));",
+            "M10: assignment through the write guard (DerefMut), as a method that carries C17's obligation: an attached sink is never overwritten")
+
 PRELUDE = r'''
 pub trait Entry {}
 pub struct VerifGlobal {}
@@ -74,6 +83,69 @@ impl RtMapGuard {
     { unimplemented!() }
 }
 #[verifier::external_body] pub fn verif_runtime_sinks() -> RtMapGuard { unimplemented!() }
+// ---- installing a runtime test sink: the map behind the mutex, as the locking thread sees it ------------------------------
+pub uninterp spec fn installed(id: RuntimeId, s: BoxEntrySink) -> bool;
+#[verifier::external_body] pub struct PoisonError { _p: u8 }
+impl core::fmt::Debug for PoisonError { #[verifier::external_body] fn fmt(&self, f: &mut core::fmt::Formatter<'_>) -> core::fmt::Result { unimplemented!() } }
+#[verifier::external_body] pub struct RtMapArc { _p: u8 }
+#[verifier::external_body] pub struct RtMapGuardMut { _p: u8 }
+#[verifier::external_body] pub fn runtime_sinks() -> &'static RtMapArc { unimplemented!() }
+impl Clone for RtMapArc { #[verifier::external_body] fn clone(&self) -> (r: RtMapArc) { unimplemented!() } }
+impl RtMapArc {
+    // the lock is not poisoned (M6: the documented panic happens after the guard is released); the guard shows the installed sinks
+    #[verifier::external_body]
+    pub fn lock(&self) -> (r: Result<RtMapGuardMut, PoisonError>) ensures r is Ok, r->Ok_0@ == rt_sinks() { unimplemented!() }
+}
+impl RtMapGuardMut {
+    pub uninterp spec fn view(&self) -> Map<RuntimeId, BoxEntrySink>;
+    #[verifier::external_body]
+    pub fn contains_key(&self, id: &RuntimeId) -> (r: bool) ensures r == self@.contains_key(*id) { unimplemented!() }
+    #[verifier::external_body]
+    pub fn get(&self, id: &RuntimeId) -> (r: Option<&BoxEntrySink>)
+        ensures (r is Some) == self@.contains_key(*id), r is Some ==> *r->0 == self@[*id]
+    { unimplemented!() }
+    // HashMap::insert, with the obligation C17 puts on every caller: a runtime's installed test sink is never overwritten
+    // ("installing a second test sink of the same kind panics without damaging the global")
+    #[verifier::external_body]
+    pub fn insert(&mut self, id: RuntimeId, s: BoxEntrySink) -> (r: Option<BoxEntrySink>)
+        requires !old(self)@.contains_key(id),                          // OBL installed_runtime_sink_is_never_overwritten
+        ensures final(self)@ == old(self)@.insert(id, s), r is None, installed(id, s),
+    { unimplemented!() }
+}
+#[verifier::external_body] pub struct TokioRuntimeTestSinkGuard { _p: u8 }
+impl TokioRuntimeTestSinkGuard {
+    pub uninterp spec fn rid(&self) -> RuntimeId;
+    #[verifier::external_body]
+    pub fn new(runtime_id: RuntimeId, map: RtMapArc) -> (r: TokioRuntimeTestSinkGuard) ensures r.rid() == runtime_id { unimplemented!() }
+}
+// ---- attach: the RwLock<Option<(BoxEntrySink, Box<dyn Any>)>> behind SINK, as the writing thread sees it -------------------
+pub trait EntrySinkBoxable {}
+impl BoxEntrySink {
+    pub uninterp spec fn boxed_from<S>(s: S) -> BoxEntrySink;
+    #[verifier::external_body] pub fn new<S: EntrySinkBoxable>(s: S) -> (r: BoxEntrySink) ensures r == BoxEntrySink::boxed_from(s) { unimplemented!() }
+}
+pub uninterp spec fn stored_as_attached(s: BoxEntrySink) -> bool;
+#[verifier::external_body] pub struct SinkWriteGuard { _p: u8 }
+#[verifier::external_body] pub fn verif_sink_write() -> (r: SinkWriteGuard) ensures r@ == attached() { unimplemented!() }
+impl SinkWriteGuard {
+    pub uninterp spec fn view(&self) -> Option<BoxEntrySink>;
+    #[verifier::external_body] pub fn is_some(&self) -> (r: bool) ensures r == (self@ is Some) { unimplemented!() }
+    #[verifier::external_body] pub fn is_none(&self) -> (r: bool) ensures r == (self@ is None) { unimplemented!() }
+    // M10: `*write = Some((sink, handle))`
+    #[verifier::external_body]
+    pub fn verif_store<H>(&mut self, s: BoxEntrySink, h: Box<H>)
+        requires old(self)@ is None,                                    // OBL attached_sink_is_never_overwritten
+        ensures final(self)@ == Some(s), stored_as_attached(s),
+    { unimplemented!() }
+    // what the detach closure of the handle does (runs later, when the handle is dropped)
+    #[verifier::external_body] pub fn take(&mut self) -> (r: Option<(BoxEntrySink, AnyHandle)>) ensures final(self)@ is None { unimplemented!() }
+}
+#[verifier::external_body] pub struct AttachHandle { _p: u8 }
+impl AttachHandle {
+    #[verifier::external_body] pub fn new<F: FnOnce() -> ()>(join: F) -> AttachHandle { unimplemented!() }
+}
+// M6: `panic!(..)` - control never continues past it
+#[verifier::external_body] pub fn verif_documented_panic(msg: &str) ensures false { unimplemented!() }
 #[verifier::external_body] pub struct SinkReadGuard { _p: u8 }
 impl SinkReadGuard {
     #[verifier::external_body]
@@ -100,6 +172,18 @@ ITEMS = [
     dict(kind="fn", file=G, inside_macro=_M, impl=None, name="get_test_sink", ret="r", label="get_test_sink",
          rules={"m2_try_current": 1, "m3_thread_local": 1, "m4_runtime_sinks": 1}, pre_rewrites=[m2, m3, m4],
          ensures="r == test_sink_now(),     // OBL test_sink_precedence_thread_then_runtime"),
+    dict(kind="fn", file=G, inside_macro=_M, impl=_IMPL, name="attach", ret="r", label="attach",
+         impl_header_override="impl VerifGlobal",
+         sig_replace=[("(sink, handle): (impl EntrySink<BoxEntry> + Send + Sync + 'static, impl Any + Send + Sync),", "sink: VerifS, handle: VerifH,"),
+                      ("fn attach(", "fn attach<VerifS: EntrySinkBoxable, VerifH>(")],
+         rules={"m8_sink_write": 2, "m9_attach_panic": 1, "m10_store": 1}, pre_rewrites=[m8, m9, m10], unpinned=["m9_attach_panic"],
+         closures={1: dict(params="", ret="(u: ())")},
+         ensures="""
+            // C17: attaching while a sink is attached never returns (it panics, after releasing the lock) ...
+            attached() is None,                                                                              // OBL second_attach_panics
+            // ... and a first attach stores the boxed sink (an attached sink is never overwritten: precondition of the store)
+            stored_as_attached(BoxEntrySink::boxed_from(sink)),                                              // OBL first_attach_stores_the_sink
+         """),
     dict(kind="fn", file=G, inside_macro=_M, impl=_IMPL, name="try_sink", ret="r", label="try_sink",
          impl_header_override="impl VerifGlobal",
          rules={"m1_test_util": 1, "m5_sink_read": 1}, pre_rewrites=[m1_test_util, m5],
@@ -111,6 +195,15 @@ ITEMS = [
             // C17: exactly one destination, by fixed precedence; with none the entry is handed back unchanged
             destination() is Some ==> r is Ok && appended_to(destination()->0, ghost_id(entry)),            // OBL entry_goes_to_the_destination
             destination() is None ==> r == Err::<(), E>(entry),                                              // OBL no_destination_hands_the_entry_back
+         """),
+    dict(kind="fn", file=G, inside_macro=_M, impl=r"^impl \$ name$", name="set_test_sink_for_tokio_runtime", ret="r", label="set_test_sink_for_tokio_runtime",
+         impl_header_override="impl VerifGlobal", sig_replace=[("&$crate::__tokio::runtime::Handle", "&RtHandle"), ("$crate::global::TokioRuntimeTestSinkGuard", "TokioRuntimeTestSinkGuard")],
+         rules={"m6_documented_panic": 1, "m7_crate_global_path": 1}, pre_rewrites=[m6, m7], unpinned=["m6_documented_panic"],
+         ensures="""
+            // C17: a second install on the same runtime never returns (it panics) ...
+            !rt_sinks().contains_key(handle.rid()),                                                        // OBL second_runtime_install_panics
+            // ... and a first one installs the sink under this runtime's id (the installed one is never overwritten: precondition of insert)
+            installed(handle.rid(), sink) && r.rid() == handle.rid(),                                      // OBL first_runtime_install_installs_the_sink
          """),
 ]
 POSTLUDE = ""
